@@ -48,6 +48,15 @@ SIG_LIST_LEADWS = "C08:list-leading-whitespace"
 CONVERTING = {"change_directory", "make_directory", "stat"}  # methods that do path = PurePosixPath(path) first
 
 
+# what stands between the mode and the name in unix-style LIST lines of other servers: (links owner group size, date)
+FOREIGN_HEADS = [
+    ("   1 ftp      ftp          4096", "Mar 14  2020"),
+    (" 1 1000 1000 7", "Jan 03 2018"),
+    ("    2 owner    group           0", "Nov 18 12:29"),
+    (" 12 0        0        1099511627776", "Feb  9  1999"),
+]
+
+
 def live_sites():
     import extract_client
 
@@ -249,6 +258,35 @@ def function_level(ctx, names, with_model=True, light=False):
                             fail(dict(inp, step="list"), "LIST line for %r is read back as name %r" % (n, str(p)), SIG_LIST_LEADWS if n[0].isspace() else "C08:list-name")
                         elif e.get("type") != typ or e.get("size") != str(stats.st_size):
                             fail(dict(inp, step="list"), "LIST line for %r read back as type %r size %r" % (n, e.get("type"), e.get("size")), "C08:list-facts")
+            # ---- the same name in the LIST lines OTHER servers write: other column widths, numeric owners, the
+            #      one-blank date of old entries, and symbolic links (`name -> target`), which aioftp's own server never
+            #      lists.  The truth is the name (and target) the line was made of.
+            if ok_name and not n[0].isspace():
+                for fi, (head, date) in enumerate(FOREIGN_HEADS):
+                    for tgt in (None, "t", "dir/", "/abs/a b", "x->y"):
+                        if tgt is not None and fi not in (0, 3):
+                            continue
+                        mode = ("l" if tgt is not None else "-d"[fi % 2]) + "rwxr-xr-x"
+                        fl = "%s%s %s %s" % (mode, head, date, n) + ("" if tgt is None else " -> " + tgt)
+                        wire = (fl + "\r\n").encode("utf-8")
+                        finp = dict(inp, step="foreign-list-line", line=fl)
+                        F.rec.reset()
+                        try:
+                            r5 = client.parse_list_line(wire)
+                        except Exception as e:  # noqa
+                            r5 = ("EXC", nc.exc_name(e))
+                        add("names listchain %s %s %s" % (nc.hexb(wire), enc_strs(F.rec.unix), enc_strs(F.rec.win)), nc.canon_entry(r5), "parse_list_line", finp)
+                        res.count("foreign list line " + ("link" if tgt is not None else "plain"))
+                        if r5[0] == "EXC":
+                            fail(finp, "the LIST line %r of another server is not parsable (%s)" % (fl, r5[1]), "C08:foreign-list-unparsable")
+                            continue
+                        p, e = r5
+                        want_type = ("dir" if tgt.endswith("/") else "file") if tgt is not None else ("file", "dir")[fi % 2]
+                        if p.parts != (n,):
+                            fail(finp, "the LIST line %r of another server is read back as name %r, not %r" % (fl, str(p), n), "C08:foreign-list-name")
+                        elif e.get("type") != want_type or (tgt is not None and e.get("link_dst") != tgt):
+                            fail(finp, "the LIST line %r of another server is read back as type %r, link target %r (want %r, %r)" % (
+                                fl, e.get("type"), e.get("link_dst"), want_type, tgt), "C08:foreign-list-facts")
 
     try:
         asyncio.run(main())
@@ -380,6 +418,44 @@ async def wire_scenario(client, server, comps, other, fallback):
     ok, st = await step("stat", lambda: client.stat(rel))
     if ok and st.get("type") != "dir":
         bad.append(("stat", "stat(%r) type %r" % (str(rel), st.get("type"))))
+    # 4b names that differ only in case (or are equal under Unicode case folding) are DIFFERENT names: a file beside the
+    #    directory, spelled in another case, is stat'ed as itself, the directory as itself, and a third spelling that
+    #    was never created does not exist - on the MLST server and through the LIST fallback
+    def usable(v):
+        try:
+            v.encode(client.encoding)
+        except UnicodeEncodeError:
+            return False
+        return bool(v) and v != n and v == v.rstrip() and v not in (".", "..") and v != other
+
+    variants = []
+    for v in (n.swapcase(), n.upper(), n.lower(), n.casefold(), n.title()):
+        if usable(v) and v not in variants:
+            variants.append(v)
+    if variants and lookup(state(), comps) is not None:
+        v = variants[0]
+        vdata = b"case variant " + v.encode("utf-8")
+
+        async def upv():
+            async with client.upload_stream(parent / v) as st_:
+                await st_.write(vdata)
+
+        ok, _ = await step("upload_stream", upv)
+        if ok and lookup(state(), comps[:-1] + [v]) is not None:
+            ok, st = await step("stat", lambda: client.stat(parent / v))
+            if ok and (st.get("type") != "file" or str(st.get("size")) != str(len(vdata))):
+                bad.append(("stat", "stat(%r) with the directory %r beside it = %r: another entry's facts" % (v, n, {k: st.get(k) for k in ("type", "size")})))
+            ok, st = await step("stat", lambda: client.stat(rel))
+            if ok and st.get("type") != "dir":
+                bad.append(("stat", "stat(%r) with the file %r beside it has type %r" % (n, v, st.get("type"))))
+            for w in variants[1:2]:
+                try:
+                    ex = await asyncio.wait_for(client.exists(parent / w), 5)
+                except Exception as e:  # noqa
+                    ex = "raised %s" % type(e).__name__
+                if ex is not False:
+                    bad.append(("stat", "exists(%r) = %r: nothing of that name was created (%r and %r were)" % (w, ex, n, v)))
+            await step("remove_file", lambda: client.remove_file(parent / v))
     # 5 upload_stream: file with the same name inside the directory
     fpath = rel / n
 
@@ -536,12 +612,14 @@ def wire_level(ctx, paths):
 
 
 ENCODING_PATHS = [("nonascii", ("café über",), "naïve"), ("nonascii", ("é", "ü ß"), "ÿ"), ("nonascii", ("Привет мир",), "файл"), ("plain", ("plain",), "other")]
+CASE_PATHS = [("case", ("README",), "x"), ("case", ("straße",), "y"), ("case", ("Dir", "ǅx"), "z"), ("case", ("ſ",), "w"), ("case", ("a b", "Mixed Case.TXT"), "q"),
+              ("case", ("İi",), "v"), ("case", ("ΑΣ",), "u")]
 DASH_PATHS = [("dash", ("-la",), "-1"), ("dash", ("-a",), "x"), ("dash", ("-R old",), "-l"), ("dash", ("-la", "-x"), "y"), ("dash", ("-",), "--"), ("dash", ("-1",), "-la")]
 
 
 def gen_paths(ctx, count):
     rng = ctx.rng
-    out = list(DASH_PATHS) + list(ENCODING_PATHS)
+    out = list(DASH_PATHS) + list(ENCODING_PATHS) + list(CASE_PATHS)
     for k in nc.KINDS:
         kind, n = nc.gen_name(rng, k)
         _, other = nc.gen_name(rng, k)
